@@ -771,9 +771,11 @@ fn oracle_c05(out: &mut RunOut, model: &Model, raw: &Raw) {
             }
             // inlay hint type = return type of the selected definition
             if !a.has_annotation && av == plain {
-                let want = a.avail.first().and_then(|x| x.1.clone()).map(|t| format!(": {}", t));
-                if a.inlay != want && a.lib == plain {
-                    out.violate("inlay-type-disagrees", format!("{}: inlay {:?} vs return type of selected definition {:?}", here, a.inlay, want));
+                // on a self-named parameter resolution selects the parent, not the view's entry
+                let want = if a.lib == plain { a.avail.first().and_then(|x| x.1.clone()) } else if a.lib.is_some() { a.lib_ret.clone() } else { None }.map(|t| format!(": {}", t));
+                if a.inlay != want {
+                    let class = if a.lib == plain { "inlay-type-disagrees" } else { "inlay-type-of-overriding-fixture-on-self-named-parameter" };
+                    out.violate(class, format!("{}: inlay {:?} vs return type of selected definition {:?} ({:?})", here, a.inlay, want, a.lib));
                 }
             }
         }
